@@ -3,9 +3,6 @@ From Coq Require Import Reals Arith Lia Lra Bool.
 From P Require Import C01_gen C01_model C01_proofs_sums C01_proofs_trig C01_proofs_fejer1.
 Open Scope R_scope.
 
-Lemma halve_ends_factor n w k : halve_ends n w k = halve_ends n (fun _ => 1) k * w k.
-Proof. unfold halve_ends. destruct (k =? 0)%nat; destruct (k =? n - 1)%nat; field. Qed.
-
 Lemma halve_ends_sym N k : (k <= N)%nat ->
   halve_ends (S N) (fun _ => 1) (N - k) = halve_ends (S N) (fun _ => 1) k.
 Proof.
